@@ -62,6 +62,26 @@ func TestVerifC15Concurrent(t *testing.T) {
 			fmt.Fprintf(w, "HERR %s\n", vOneWord(err.Error()))
 			continue
 		}
+		// sequential prologue: is the reference lifecycle of the epilogue satisfiable on this machine and configuration at all?
+		// (on very small machines the default balloon cannot get a CPU even in the pristine state; the epilogue is only
+		// required to be served where the same lifecycle was served before the concurrent phase)
+		probeOK := true
+		{
+			pp := &vPod{id: "probe", name: "probe", ns: "default", qos: "BestEffort", ann: map[string]string{}}
+			pc := &vCtr{id: "probec", name: "ctr0", pod: pp}
+			for _, fn := range []func() error{
+				func() error { return h.m.nri.RunPodSandbox(ctx, pp.nri()) },
+				func() error { _, _, err := h.m.nri.CreateContainer(ctx, pp.nri(), pc.nri()); return err },
+				func() error { _, err := h.m.nri.StopContainer(ctx, pp.nri(), pc.nri()); return err },
+				func() error { return h.m.nri.RemoveContainer(ctx, pp.nri(), pc.nri()) },
+				func() error { return h.m.nri.StopPodSandbox(ctx, pp.nri()) },
+				func() error { return h.m.nri.RemovePodSandbox(ctx, pp.nri()) },
+			} {
+				if r := vSafeStack(func() string { return vErr(fn()) }); !strings.HasPrefix(r, "ok") {
+					probeOK = false
+				}
+			}
+		}
 		workers := 4 + rng.Intn(4)
 		// a configuration the policy must reject, derived before the concurrent phase (no unlocked reads of m.cfg by the harness
 		// while requests run); worker 2 delivers it repeatedly, concurrently with worker 0's accepted re-application
@@ -196,7 +216,11 @@ func TestVerifC15Concurrent(t *testing.T) {
 			{"final-stoppod", func() error { return h.m.nri.StopPodSandbox(ctx, fp.nri()) }},
 			{"final-removepod", func() error { return h.m.nri.RemovePodSandbox(ctx, fp.nri()) }},
 		} {
-			fmt.Fprintf(w, "E %s\nR %s\n", s.n, vSafeStack(func() string { return vErr(s.fn()) }))
+			name := s.n
+			if !probeOK {
+				name = "unprobed-" + name // not judged: the same lifecycle was refused in the pristine state
+			}
+			fmt.Fprintf(w, "E %s\nR %s\n", name, vSafeStack(func() string { return vErr(s.fn()) }))
 		}
 		fmt.Fprintf(w, "V %s\n", h.vCacheView())
 		h.vSnapshot(w)
